@@ -903,6 +903,7 @@ func c04PreState(c *eng.Ctx, r *eng.Report) {
 				}
 				// the entry is a load of a composite literal: gather the values stored into its members
 				var vals []ssa.Value
+				handedIn := ""
 				if u, isU := mi.X.(*ssa.UnOp); isU {
 					if al, isA := u.X.(*ssa.Alloc); isA {
 						for _, ref := range *al.Referrers() {
@@ -910,11 +911,21 @@ func c04PreState(c *eng.Ctx, r *eng.Report) {
 								for _, r2 := range *fa.Referrers() {
 									if st, isSt := r2.(*ssa.Store); isSt && st.Addr == ssa.Value(fa) {
 										vals = append(vals, st.Val)
+										// the recorded previous value is read from the state by the function that journals it,
+										// not taken on trust from a caller (who may hold a re-encoded or stale copy)
+										if _, mf := eng.FieldOf(fa); strings.HasPrefix(mf, "prev") || strings.HasPrefix(mf, "pre") {
+											if prm, isP := eng.ResolveLocal(st.Val).(*ssa.Parameter); isP && (len(fn.Params) == 0 || prm != fn.Params[0]) && !strings.HasSuffix(prm.Type().String(), "accountObject") /* an object's identity, not a copy of a value */ {
+												handedIn = mf + " = parameter " + prm.Name()
+											}
+										}
 									}
 								}
 							}
 						}
 					}
+				}
+				if handedIn != "" {
+					r.Fail(rule, fmt.Sprintf("pre-state:%s:%s:handed-in", eng.FuncName(fn), ety.Obj().Name()), c.Pos(mi.Pos()), "journal entry "+ety.Obj().Name()+" built in "+eng.FuncName(fn)+" records a previous value it did not read itself ("+handedIn+"): the caller's copy need not be what the state holds — a balance re-encoded in minimal form where the slot held a zero-padded word — so undo writes other bytes than were there, and the storage root after RevertToSnapshot differs from the one before the frame")
 				}
 				// loads of state fields feeding those values
 				type ld struct {
